@@ -52,6 +52,14 @@ pub enum Injection {
     /// a malformed substance whose first (well-formed) property is named like an existing unit:
     /// nothing of it may remain visible after the load
     MalformedSubstanceShadowingUnit,
+    /// a prefix whose value divides by zero (`1|0`, `0^-1`, `1 / 0`)
+    PrefixDivByZero(u8),
+    /// a quantity raised to a power at the edge of the exponent range
+    QuantityHugePower(u8),
+    /// a substance property whose input or output is a *computed* zero (float zero, `0 * 2^0.5`)
+    ComputedZeroProperty(u8),
+    /// a number immediately followed by a non-ASCII numeric character (`10\u{b2}`, `2\u{bd}`)
+    UnicodeNumericInNumber(u8),
 }
 
 impl Injection {
@@ -120,6 +128,27 @@ impl Injection {
                 vec![format!("zlk{}x", i)],
                 Some("u0 + u0".to_string()),
             ),
+            Injection::PrefixDivByZero(k) => {
+                let v = ["1|0", "0^-1", "1 / 0", "3|(2 - 2)", "(1 - 1)^-3", "1|0.0"][*k as usize % 6];
+                (format!("pdz{}x- {}\n", i, v), vec![format!("pdz{}x", i)], Some(format!("pdz{}xba", i)))
+            }
+            Injection::QuantityHugePower(k) => {
+                let v = ["9223372036854775807", "-9223372036854775807", "9223372036854775808", "4611686018427387904", "3037000500^2", "99999999999999999999"][*k as usize % 6];
+                (format!("qhp{}x ? ba^{}\nqhq{}x ? qhp{}x qhp{}x qhp{}x\n", i, v, i, i, i, i), vec![], Some(format!("units for qhp{}x", i)))
+            }
+            Injection::ComputedZeroProperty(k) => {
+                let zero = ["(0 * 2^0.5)", "(2^0.5 - 2^0.5)", "0.0", "(1 - 1)", "(0 ba / ba)"][*k as usize % 5];
+                let text = if k % 2 == 0 {
+                    format!("cz{}x {{\n    pcz{}x ocz{}x 3 ba / icz{}x {} ba\n}}\n", i, i, i, i, zero)
+                } else {
+                    format!("cz{}x {{\n    pcz{}x ocz{}x {} ba / icz{}x 2 ba\n}}\n", i, i, i, zero, i)
+                };
+                (text, vec![format!("cz{}x", i)], Some(format!("pcz{}x of cz{}x", i, i)))
+            }
+            Injection::UnicodeNumericInNumber(k) => {
+                let v = ["10\u{b2}", "2\u{bd}", "10\u{663}", "1.5\u{b2}", "3\u{2460}", "1e\u{663}", "7\u{2155}", "1.\u{b9}"][*k as usize % 8];
+                (format!("und{}x {} ba\n", i, v), vec![], Some(format!("und{}x", i)))
+            }
         }
     }
 }
@@ -267,7 +296,7 @@ pub fn mutate_text(src: &str, tape: &[u32]) -> String {
             6 => {
                 if !lines.is_empty() {
                     let i = t.pick(n);
-                    let c = ["{", "}", "(", ")", "!", "?", "??", "\"", "|", "^", "/", "-", "--", "\\x", "#"][t.pick(15)];
+                    let c = ["{", "}", "(", ")", "!", "?", "??", "\"", "|", "^", "/", "-", "--", "\\x", "#", "\u{b2}", "\u{bd}", "\u{663}", "0", "|0", "^-1", "e", "."][t.pick(23)];
                     let pos = t.pick(lines[i].chars().count() + 1);
                     let mut cs: Vec<char> = lines[i].chars().collect();
                     for (k, ch) in c.chars().enumerate() {
@@ -608,6 +637,10 @@ fn injection() -> impl Strategy<Value = Injection> {
         Just(Injection::NonNumericProperty),
         Just(Injection::SelfReference),
         Just(Injection::MalformedSubstanceShadowingUnit),
+        (0u8..6).prop_map(Injection::PrefixDivByZero),
+        (0u8..6).prop_map(Injection::QuantityHugePower),
+        (0u8..10).prop_map(Injection::ComputedZeroProperty),
+        (0u8..8).prop_map(Injection::UnicodeNumericInNumber),
     ]
 }
 
